@@ -1170,7 +1170,13 @@ def cone_lifecycle(ctx):
                 if op == 'lb' and (m[1] == 'zero' or reftok == 'zero') and m[1] == reftok:
                     continue          # zero axial load: kG0 = 0, the eigenvalues are round-off noise in every history
                 ctx.evaluations += 1
-                if not same_result(val, ref, tol):
+                tol_ = tol
+                if op == 'lb':
+                    try:        # ARPACK resolves a multiplier lam to about eps*|lam| only (Cayley transform, random start vector)
+                        tol_ = max(tol, 1e-12 * float(np.abs(np.asarray(val[0] if isinstance(val, (tuple, list)) else val)).max()))
+                    except Exception:
+                        pass
+                if not same_result(val, ref, tol_):
                     ident = 'C20-conecyl-lb-default-load-order' if m[1] != reftok else None
                     note = ' [the model predicts it: axial load %s vs %s]' % (m[1], reftok) if ident else ''
                     if ctx.violation('ConeCyl call %d (%s) returns a result different from %s%s' % (i, op, label, note),
@@ -1291,7 +1297,10 @@ def analysis_inputs(ctx, hook=None):
             if isinstance(a, tuple) and a and isinstance(a[0], str):
                 ok = a == b
             elif name == 'lb-sparse':
-                ok = same_result(a[0], b[0], tol)
+                # ARPACK starts from a random vector; the Cayley transform (sigma = 1) resolves a multiplier lam only to
+                # about eps*|lam|, so a far sub-critical reference load (|lam| ~ 1e8) repeats to ~1e-8 only
+                lam_ = float(np.abs(np.asarray(a[0])).max()) if np.size(a[0]) else 0.
+                ok = same_result(a[0], b[0], max(tol, 1e-12 * lam_))
             else:
                 ok = same_result(list(a), list(b), tol)
             if not ok:
